@@ -124,6 +124,24 @@ static void dgmlt_group(Group & g, const char * tag, F call, verif::Rng & rng, i
       }
       // vacuity guard: degree 2*NG must NOT be exact with one panel on [-1,1]-like interval
     }
+    // any other order than 8 means the 6-point rule (documented fallback of the routines): still exact to degree 11
+    if (NG == 6) {
+      for (int other : {0, 1, 5, 7, 9, 10, 12, 16, 64}) {
+        for (int NI : {1, 3, 11}) {
+          for (int k = 0; k <= 11; k++) {
+            MonoPar mo{k, 0, 0};
+            double xo[2] = {0, 0};
+            double ro = call(-0.7, 1.9, NI, other, xo, &mo);
+            double exo = exact_mono(k, -0.7, 1.9);
+            double sc = std::pow(1.9, k) * 2.6;
+            g.n++;
+            g.distinct.insert(fmt("%s/NG%d-fallback/NI%d/k%d", tag, other, NI, k));
+            if (!(std::fabs(ro - exo) / sc <= 1e-13))
+              g.fail(fmt("%s|NG-fallback|exactness", tag), fmt("x^%d on [-0.7,1.9] NI=%d NG=%d (6-point fallback): got %.17g exact %.17g", k, NI, other, ro, exo));
+          }
+        }
+      }
+    }
     MonoPar mp{2 * NG, 0, 0};
     double x[2] = {0, 0};
     double r = call(-1.0, 1.0, 1, NG, x, &mp);
